@@ -361,3 +361,47 @@ M('C06', 'twin: conj via unary minus written as multiplication', CH,
         return res""", """        res = self.copy()  # shallow copy
         res.qconj = (-1) * self.qconj
         return res""", None, 'silent')
+
+# ---------------------------------------------------------------- C03
+M('C03', 'make_valid asarray (original defect)', CH,
+  'charges = np.array(charges, dtype=QTYPE)  # copy: never write into the argument',
+  'charges = np.asarray(charges, dtype=QTYPE)', 'OWN-write')
+M('C03', 'iproject edits shared _qdata (caught at the shallow-copy call sites)', NPC,
+  '        self._qdata = self._qdata.copy()\n', '', 'OWN-write')
+M('C03', '__add__ on shallow copy', NPC,
+  """            res = self.copy(deep=True)
+            return res.iadd_prefactor_other(1.0, other)""",
+  """            res = self.copy(deep=False)
+            return res.iadd_prefactor_other(1.0, other)""", 'OWN-write')
+M('C03', 'take_slice on shallow copy', NPC, """        res = self.copy(deep=True)
+        if len(axes) == 0:
+            return res  # nothing to do""", """        res = self.copy(deep=False)
+        if len(axes) == 0:
+            return res  # nothing to do""", 'OWN-write')
+M('C03', 'squeeze shares qtotal', NPC, 'res.qtotal = self.qtotal.copy()', 'res.qtotal = self.qtotal',
+  'OWN-write')
+M('C03', 'add_trivial_leg writes shared block list', NPC, '        res._data = res._data[:]  # make a copy\n', '',
+  'OWN-write')
+M('C03', 'from_ndarray zeroes the caller array', NPC,
+  'data_flat = data_flat.astype(dtype, copy=True)\n        res = cls(legcharges, dtype, qtotal, labels)',
+  'data_flat = data_flat.astype(dtype, copy=False)\n        res = cls(legcharges, dtype, qtotal, labels)',
+  'OWN-write')
+M('C03', 'tensordot transposes operands in place', NPC,
+  """        a = a.copy(deep=False)  # shallow copy allows to call itranspose
+        b = b.copy(deep=False)  # which would otherwise break views.
+""", "", 'OWN-write')
+M('C03', 'MPS init keeps caller tensors', MPS,
+  'self._B = [B.astype(dtype, copy=True).itranspose(self._B_labels) for B in Bs]',
+  'self._B = [B.astype(dtype, copy=False).itranspose(self._B_labels) for B in Bs]',
+  'OWN-network-copy')
+M('C03', 'flip_charges_qconj edits charges in place', CH,
+  'res.charges = self.chinfo.make_valid(-self.charges)', 'res.charges *= -1', 'OWN-legs')
+M('C03', 'extend on shallow copy', NPC, """        extended = self.copy(deep=True)
+        ax = self.get_leg_index(axis)""", """        extended = self.copy(deep=False)
+        ax = self.get_leg_index(axis)""", None, 'silent')  # legs list is owned by a shallow copy
+M('C03', 'conj real path without copy', NPC, """            if inplace:
+                res = self
+            else:
+                res = self.copy(deep=True)
+        res.qtotal = self.chinfo.make_valid(-res.qtotal)""", """            res = self
+        res.qtotal = self.chinfo.make_valid(-res.qtotal)""", 'OWN-inplace-flag')
